@@ -1,4 +1,1638 @@
 /*!
 Model values: one generated tree yields an `emit::Value` through any capture mode and an
-independently computed expectation. (Filled in by the value-oriented monitors.)
+independently computed expectation.
+
+* [`ModelValue`] – a tree over the serde / sval data models with hand-written
+  `serde::Serialize`, `sval::Value`, `Display` and `Debug` impls that mirror what the derives /
+  std impls of both frameworks do for the corresponding Rust types.
+* [`gen_value`] and friends – seeded, depth / size bounded generators, primitives at their extremes.
+* [`ModelValue::json_image`] – what a JSON serializer must produce for the original, computed
+  from the tree (not through serde or sval); compared with [`parse_json`] output by
+  [`JsonImage::matches`]. Numbers are compared by meaning (decimal digits for integers,
+  bit-exact parse for floats), so no float formatting algorithm is duplicated here.
+* [`ModelValue::any_image`] – the OTLP `AnyValue` image per the calibration in DESIGN.md (C13).
 */
+
+use std::fmt;
+
+use crate::Rng;
+
+// ---------------------------------------------------------------------------
+// the tree
+// ---------------------------------------------------------------------------
+
+/// An error with a chain of sources: `msgs[0]` is the outermost message.
+#[derive(Clone, PartialEq)]
+pub struct ModelError {
+    pub msg: String,
+    pub source: Option<Box<ModelError>>,
+}
+
+impl ModelError {
+    pub fn chain(msgs: &[String]) -> ModelError {
+        let mut it = msgs.iter().rev();
+        let mut cur = ModelError { msg: it.next().cloned().unwrap_or_default(), source: None };
+        for m in it {
+            cur = ModelError { msg: m.clone(), source: Some(Box::new(cur)) };
+        }
+        cur
+    }
+
+    pub fn messages(&self) -> Vec<String> {
+        let mut v = vec![self.msg.clone()];
+        let mut cur = &self.source;
+        while let Some(s) = cur {
+            v.push(s.msg.clone());
+            cur = &s.source;
+        }
+        v
+    }
+}
+
+impl fmt::Display for ModelError {
+    fn fmt(&self, f: &mut fmt::Formatter) -> fmt::Result {
+        f.write_str(&self.msg)
+    }
+}
+
+impl fmt::Debug for ModelError {
+    fn fmt(&self, f: &mut fmt::Formatter) -> fmt::Result {
+        f.debug_struct("ModelError").field("msg", &self.msg).field("source", &self.source).finish()
+    }
+}
+
+impl std::error::Error for ModelError {
+    fn source(&self) -> Option<&(dyn std::error::Error + 'static)> {
+        self.source.as_ref().map(|s| &**s as &(dyn std::error::Error + 'static))
+    }
+}
+
+#[derive(Clone, PartialEq)]
+pub enum ModelValue {
+    Unit,
+    Bool(bool),
+    I8(i8),
+    I16(i16),
+    I32(i32),
+    I64(i64),
+    I128(i128),
+    Isize(isize),
+    U8(u8),
+    U16(u16),
+    U32(u32),
+    U64(u64),
+    U128(u128),
+    Usize(usize),
+    F32(f32),
+    F64(f64),
+    Char(char),
+    Str(String),
+    Bytes(Vec<u8>),
+    None,
+    Some(Box<ModelValue>),
+    Seq(Vec<ModelValue>),
+    Tuple(Vec<ModelValue>),
+    Map(Vec<(ModelValue, ModelValue)>),
+    UnitStruct(&'static str),
+    NewtypeStruct(&'static str, Box<ModelValue>),
+    TupleStruct(&'static str, Vec<ModelValue>),
+    Struct(&'static str, Vec<(&'static str, ModelValue)>),
+    /// (enum name, variant index, variant name)
+    UnitVariant(&'static str, u32, &'static str),
+    NewtypeVariant(&'static str, u32, &'static str, Box<ModelValue>),
+    TupleVariant(&'static str, u32, &'static str, Vec<ModelValue>),
+    StructVariant(&'static str, u32, &'static str, Vec<(&'static str, ModelValue)>),
+    /// Only generated at the top level of a property (captured with `as_error` / as `err`).
+    /// As data it is its outermost message.
+    Error(ModelError),
+}
+
+use ModelValue as M;
+
+pub const TYPE_NAMES: &[&str] = &["Alpha", "Beta", "Gamma", "Point", "Wrapper", "Reading", "Unit"];
+pub const ENUM_NAMES: &[&str] = &["Kind", "Shape", "State"];
+pub const VARIANT_NAMES: &[&str] = &["First", "Second", "Third", "Other"];
+pub const FIELD_NAMES: &[&str] = &["a", "b", "c", "id", "name", "value", "items", "nested", "x_1", "_z"];
+
+// ---------------------------------------------------------------------------
+// serde
+// ---------------------------------------------------------------------------
+
+impl serde::Serialize for ModelValue {
+    fn serialize<S: serde::Serializer>(&self, s: S) -> Result<S::Ok, S::Error> {
+        use serde::ser::{
+            SerializeMap, SerializeSeq, SerializeStruct, SerializeStructVariant, SerializeTuple, SerializeTupleStruct,
+            SerializeTupleVariant,
+        };
+        match self {
+            M::Unit => s.serialize_unit(),
+            M::Bool(v) => s.serialize_bool(*v),
+            M::I8(v) => s.serialize_i8(*v),
+            M::I16(v) => s.serialize_i16(*v),
+            M::I32(v) => s.serialize_i32(*v),
+            M::I64(v) => s.serialize_i64(*v),
+            M::I128(v) => s.serialize_i128(*v),
+            M::Isize(v) => s.serialize_i64(*v as i64),
+            M::U8(v) => s.serialize_u8(*v),
+            M::U16(v) => s.serialize_u16(*v),
+            M::U32(v) => s.serialize_u32(*v),
+            M::U64(v) => s.serialize_u64(*v),
+            M::U128(v) => s.serialize_u128(*v),
+            M::Usize(v) => s.serialize_u64(*v as u64),
+            M::F32(v) => s.serialize_f32(*v),
+            M::F64(v) => s.serialize_f64(*v),
+            M::Char(v) => s.serialize_char(*v),
+            M::Str(v) => s.serialize_str(v),
+            M::Bytes(v) => s.serialize_bytes(v),
+            M::None => s.serialize_none(),
+            M::Some(v) => s.serialize_some(&**v),
+            M::Seq(v) => {
+                let mut q = s.serialize_seq(Some(v.len()))?;
+                for e in v {
+                    q.serialize_element(e)?;
+                }
+                q.end()
+            }
+            M::Tuple(v) => {
+                let mut q = s.serialize_tuple(v.len())?;
+                for e in v {
+                    q.serialize_element(e)?;
+                }
+                q.end()
+            }
+            M::Map(v) => {
+                let mut q = s.serialize_map(Some(v.len()))?;
+                for (k, e) in v {
+                    q.serialize_entry(k, e)?;
+                }
+                q.end()
+            }
+            M::UnitStruct(n) => s.serialize_unit_struct(n),
+            M::NewtypeStruct(n, v) => s.serialize_newtype_struct(n, &**v),
+            M::TupleStruct(n, v) => {
+                let mut q = s.serialize_tuple_struct(n, v.len())?;
+                for e in v {
+                    q.serialize_field(e)?;
+                }
+                q.end()
+            }
+            M::Struct(n, v) => {
+                let mut q = s.serialize_struct(n, v.len())?;
+                for (k, e) in v {
+                    q.serialize_field(k, e)?;
+                }
+                q.end()
+            }
+            M::UnitVariant(n, i, vn) => s.serialize_unit_variant(n, *i, vn),
+            M::NewtypeVariant(n, i, vn, v) => s.serialize_newtype_variant(n, *i, vn, &**v),
+            M::TupleVariant(n, i, vn, v) => {
+                let mut q = s.serialize_tuple_variant(n, *i, vn, v.len())?;
+                for e in v {
+                    q.serialize_field(e)?;
+                }
+                q.end()
+            }
+            M::StructVariant(n, i, vn, v) => {
+                let mut q = s.serialize_struct_variant(n, *i, vn, v.len())?;
+                for (k, e) in v {
+                    q.serialize_field(k, e)?;
+                }
+                q.end()
+            }
+            M::Error(e) => s.collect_str(e),
+        }
+    }
+}
+
+// ---------------------------------------------------------------------------
+// sval (mirrors sval's std impls and what sval_derive generates)
+// ---------------------------------------------------------------------------
+
+fn ident(s: &'static str) -> sval::Label<'static> {
+    sval::Label::new(s).with_tag(&sval::tags::VALUE_IDENT)
+}
+
+fn offset(i: usize) -> sval::Index {
+    sval::Index::new(i).with_tag(&sval::tags::VALUE_OFFSET)
+}
+
+fn stream_record<'sval, S: sval::Stream<'sval> + ?Sized>(
+    stream: &mut S,
+    label: &sval::Label,
+    index: Option<&sval::Index>,
+    fields: &'sval [(&'static str, ModelValue)],
+) -> sval::Result {
+    stream.record_tuple_begin(None, Some(label), index, Some(fields.len()))?;
+    for (i, (k, v)) in fields.iter().enumerate() {
+        let l = ident(k);
+        let ix = offset(i);
+        stream.record_tuple_value_begin(None, &l, &ix)?;
+        stream.value(v)?;
+        stream.record_tuple_value_end(None, &l, &ix)?;
+    }
+    stream.record_tuple_end(None, Some(label), index)
+}
+
+fn stream_tuple<'sval, S: sval::Stream<'sval> + ?Sized>(
+    stream: &mut S,
+    label: Option<&sval::Label>,
+    index: Option<&sval::Index>,
+    fields: &'sval [ModelValue],
+) -> sval::Result {
+    stream.tuple_begin(None, label, index, Some(fields.len()))?;
+    for (i, v) in fields.iter().enumerate() {
+        let ix = offset(i);
+        stream.tuple_value_begin(None, &ix)?;
+        stream.value(v)?;
+        stream.tuple_value_end(None, &ix)?;
+    }
+    stream.tuple_end(None, label, index)
+}
+
+impl sval::Value for ModelValue {
+    fn stream<'sval, S: sval::Stream<'sval> + ?Sized>(&'sval self, stream: &mut S) -> sval::Result {
+        match self {
+            M::Unit => stream.tag(Some(&sval::tags::RUST_UNIT), None, None),
+            M::Bool(v) => stream.bool(*v),
+            M::I8(v) => stream.i8(*v),
+            M::I16(v) => stream.i16(*v),
+            M::I32(v) => stream.i32(*v),
+            M::I64(v) => stream.i64(*v),
+            M::I128(v) => stream.i128(*v),
+            M::Isize(v) => stream.i64(*v as i64),
+            M::U8(v) => stream.u8(*v),
+            M::U16(v) => stream.u16(*v),
+            M::U32(v) => stream.u32(*v),
+            M::U64(v) => stream.u64(*v),
+            M::U128(v) => stream.u128(*v),
+            M::Usize(v) => stream.u64(*v as u64),
+            M::F32(v) => stream.f32(*v),
+            M::F64(v) => stream.f64(*v),
+            M::Char(v) => stream.value_computed(v),
+            M::Str(v) => stream.value(v.as_str()),
+            M::Bytes(v) => stream.value(sval::BinarySlice::new(v)),
+            M::None => stream.tag(
+                Some(&sval::tags::RUST_OPTION_NONE),
+                Some(&ident("None")),
+                Some(&offset(0)),
+            ),
+            M::Some(v) => {
+                let (l, i) = (ident("Some"), offset(1));
+                stream.tagged_begin(Some(&sval::tags::RUST_OPTION_SOME), Some(&l), Some(&i))?;
+                stream.value(&**v)?;
+                stream.tagged_end(Some(&sval::tags::RUST_OPTION_SOME), Some(&l), Some(&i))
+            }
+            M::Seq(v) => {
+                stream.seq_begin(Some(v.len()))?;
+                for e in v {
+                    stream.seq_value_begin()?;
+                    stream.value(e)?;
+                    stream.seq_value_end()?;
+                }
+                stream.seq_end()
+            }
+            M::Tuple(v) => stream_tuple(stream, None, None, v),
+            M::Map(v) => {
+                stream.map_begin(Some(v.len()))?;
+                for (k, e) in v {
+                    stream.map_key_begin()?;
+                    stream.value(k)?;
+                    stream.map_key_end()?;
+                    stream.map_value_begin()?;
+                    stream.value(e)?;
+                    stream.map_value_end()?;
+                }
+                stream.map_end()
+            }
+            M::UnitStruct(n) => stream.tag(None, Some(&ident(n)), None),
+            M::NewtypeStruct(n, v) => {
+                let l = ident(n);
+                stream.tagged_begin(None, Some(&l), None)?;
+                stream.value(&**v)?;
+                stream.tagged_end(None, Some(&l), None)
+            }
+            M::TupleStruct(n, v) => stream_tuple(stream, Some(&ident(n)), None, v),
+            M::Struct(n, v) => stream_record(stream, &ident(n), None, v),
+            M::UnitVariant(n, i, vn) => {
+                let l = ident(n);
+                stream.enum_begin(None, Some(&l), None)?;
+                stream.tag(None, Some(&ident(vn)), Some(&offset(*i as usize)))?;
+                stream.enum_end(None, Some(&l), None)
+            }
+            M::NewtypeVariant(n, i, vn, v) => {
+                let l = ident(n);
+                let (vl, vi) = (ident(vn), offset(*i as usize));
+                stream.enum_begin(None, Some(&l), None)?;
+                stream.tagged_begin(None, Some(&vl), Some(&vi))?;
+                stream.value(&**v)?;
+                stream.tagged_end(None, Some(&vl), Some(&vi))?;
+                stream.enum_end(None, Some(&l), None)
+            }
+            M::TupleVariant(n, i, vn, v) => {
+                let l = ident(n);
+                stream.enum_begin(None, Some(&l), None)?;
+                stream_tuple(stream, Some(&ident(vn)), Some(&offset(*i as usize)), v)?;
+                stream.enum_end(None, Some(&l), None)
+            }
+            M::StructVariant(n, i, vn, v) => {
+                let l = ident(n);
+                stream.enum_begin(None, Some(&l), None)?;
+                stream_record(stream, &ident(vn), Some(&offset(*i as usize)), v)?;
+                stream.enum_end(None, Some(&l), None)
+            }
+            M::Error(e) => sval::stream_display(stream, e),
+        }
+    }
+}
+
+// ---------------------------------------------------------------------------
+// Display / Debug of the original
+// ---------------------------------------------------------------------------
+
+impl fmt::Debug for ModelValue {
+    fn fmt(&self, f: &mut fmt::Formatter) -> fmt::Result {
+        match self {
+            M::Unit => f.write_str("()"),
+            M::Bool(v) => fmt::Debug::fmt(v, f),
+            M::I8(v) => fmt::Debug::fmt(v, f),
+            M::I16(v) => fmt::Debug::fmt(v, f),
+            M::I32(v) => fmt::Debug::fmt(v, f),
+            M::I64(v) => fmt::Debug::fmt(v, f),
+            M::I128(v) => fmt::Debug::fmt(v, f),
+            M::Isize(v) => fmt::Debug::fmt(v, f),
+            M::U8(v) => fmt::Debug::fmt(v, f),
+            M::U16(v) => fmt::Debug::fmt(v, f),
+            M::U32(v) => fmt::Debug::fmt(v, f),
+            M::U64(v) => fmt::Debug::fmt(v, f),
+            M::U128(v) => fmt::Debug::fmt(v, f),
+            M::Usize(v) => fmt::Debug::fmt(v, f),
+            M::F32(v) => fmt::Debug::fmt(v, f),
+            M::F64(v) => fmt::Debug::fmt(v, f),
+            M::Char(v) => fmt::Debug::fmt(v, f),
+            M::Str(v) => fmt::Debug::fmt(v, f),
+            M::Bytes(v) => fmt::Debug::fmt(v, f),
+            M::None => f.write_str("None"),
+            M::Some(v) => f.debug_tuple("Some").field(v).finish(),
+            M::Seq(v) => f.debug_list().entries(v).finish(),
+            M::Tuple(v) => {
+                let mut t = f.debug_tuple("");
+                for e in v {
+                    t.field(e);
+                }
+                t.finish()
+            }
+            M::Map(v) => f.debug_map().entries(v.iter().map(|(k, e)| (k, e))).finish(),
+            M::UnitStruct(n) => f.write_str(n),
+            M::NewtypeStruct(n, v) => f.debug_tuple(n).field(v).finish(),
+            M::TupleStruct(n, v) | M::TupleVariant(_, _, n, v) => {
+                let mut t = f.debug_tuple(n);
+                for e in v {
+                    t.field(e);
+                }
+                t.finish()
+            }
+            M::Struct(n, v) | M::StructVariant(_, _, n, v) => {
+                let mut t = f.debug_struct(n);
+                for (k, e) in v {
+                    t.field(k, e);
+                }
+                t.finish()
+            }
+            M::UnitVariant(_, _, vn) => f.write_str(vn),
+            M::NewtypeVariant(_, _, vn, v) => f.debug_tuple(vn).field(v).finish(),
+            M::Error(e) => fmt::Debug::fmt(e, f),
+        }
+    }
+}
+
+impl fmt::Display for ModelValue {
+    fn fmt(&self, f: &mut fmt::Formatter) -> fmt::Result {
+        match self {
+            M::Bool(v) => fmt::Display::fmt(v, f),
+            M::I8(v) => fmt::Display::fmt(v, f),
+            M::I16(v) => fmt::Display::fmt(v, f),
+            M::I32(v) => fmt::Display::fmt(v, f),
+            M::I64(v) => fmt::Display::fmt(v, f),
+            M::I128(v) => fmt::Display::fmt(v, f),
+            M::Isize(v) => fmt::Display::fmt(v, f),
+            M::U8(v) => fmt::Display::fmt(v, f),
+            M::U16(v) => fmt::Display::fmt(v, f),
+            M::U32(v) => fmt::Display::fmt(v, f),
+            M::U64(v) => fmt::Display::fmt(v, f),
+            M::U128(v) => fmt::Display::fmt(v, f),
+            M::Usize(v) => fmt::Display::fmt(v, f),
+            M::F32(v) => fmt::Display::fmt(v, f),
+            M::F64(v) => fmt::Display::fmt(v, f),
+            M::Char(v) => fmt::Display::fmt(v, f),
+            M::Str(v) => fmt::Display::fmt(v, f),
+            M::Error(e) => fmt::Display::fmt(e, f),
+            // a user type whose Display is a bracketed form of its Debug
+            other => write!(f, "<{:?}>", other),
+        }
+    }
+}
+
+// ---------------------------------------------------------------------------
+// classification helpers
+// ---------------------------------------------------------------------------
+
+impl ModelValue {
+    /// Coarse shape class of the top of the tree (evidence, signatures).
+    pub fn shape(&self) -> &'static str {
+        match self {
+            M::Unit => "unit",
+            M::Bool(_) => "bool",
+            M::I8(_) => "i8",
+            M::I16(_) => "i16",
+            M::I32(_) => "i32",
+            M::I64(_) => "i64",
+            M::I128(_) => "i128",
+            M::Isize(_) => "isize",
+            M::U8(_) => "u8",
+            M::U16(_) => "u16",
+            M::U32(_) => "u32",
+            M::U64(_) => "u64",
+            M::U128(_) => "u128",
+            M::Usize(_) => "usize",
+            M::F32(_) => "f32",
+            M::F64(_) => "f64",
+            M::Char(_) => "char",
+            M::Str(_) => "str",
+            M::Bytes(_) => "bytes",
+            M::None => "none",
+            M::Some(_) => "some",
+            M::Seq(_) => "seq",
+            M::Tuple(_) => "tuple",
+            M::Map(_) => "map",
+            M::UnitStruct(_) => "unit-struct",
+            M::NewtypeStruct(..) => "newtype-struct",
+            M::TupleStruct(..) => "tuple-struct",
+            M::Struct(..) => "struct",
+            M::UnitVariant(..) => "unit-variant",
+            M::NewtypeVariant(..) => "newtype-variant",
+            M::TupleVariant(..) => "tuple-variant",
+            M::StructVariant(..) => "struct-variant",
+            M::Error(_) => "error",
+        }
+    }
+
+    pub fn is_primitive(&self) -> bool {
+        !matches!(self.shape(), "none" | "some" | "seq" | "tuple" | "map" | "bytes" | "unit-struct" | "newtype-struct"
+            | "tuple-struct" | "struct" | "unit-variant" | "newtype-variant" | "tuple-variant" | "struct-variant" | "error" | "unit")
+    }
+
+    pub fn children(&self) -> Vec<&ModelValue> {
+        match self {
+            M::Some(v) | M::NewtypeStruct(_, v) | M::NewtypeVariant(_, _, _, v) => vec![&**v],
+            M::Seq(v) | M::Tuple(v) | M::TupleStruct(_, v) | M::TupleVariant(_, _, _, v) => v.iter().collect(),
+            M::Map(v) => v.iter().flat_map(|(k, e)| [k, e]).collect(),
+            M::Struct(_, v) | M::StructVariant(_, _, _, v) => v.iter().map(|(_, e)| e).collect(),
+            _ => Vec::new(),
+        }
+    }
+
+    /// Visit every node (pre-order).
+    pub fn walk<'a>(&'a self, f: &mut dyn FnMut(&'a ModelValue)) {
+        f(self);
+        for c in self.children() {
+            c.walk(f);
+        }
+    }
+
+    pub fn any(&self, p: &dyn Fn(&ModelValue) -> bool) -> bool {
+        let mut hit = false;
+        self.walk(&mut |v| hit |= p(v));
+        hit
+    }
+
+    pub fn nodes(&self) -> usize {
+        let mut n = 0;
+        self.walk(&mut |_| n += 1);
+        n
+    }
+
+    /// Shape of a value used as a map key, as named in the C13 signatures.
+    pub fn key_shape(&self) -> &'static str {
+        match self {
+            M::Str(_) => "str",
+            M::Char(_) => "char",
+            M::Bool(_) => "bool",
+            M::F32(_) | M::F64(_) => "float",
+            M::I8(_) | M::I16(_) | M::I32(_) | M::I64(_) | M::Isize(_) | M::U8(_) | M::U16(_) | M::U32(_) | M::Usize(_) => "int",
+            M::U64(v) => {
+                if *v <= i64::MAX as u64 {
+                    "int"
+                } else {
+                    "bigint"
+                }
+            }
+            M::I128(v) => {
+                if i64::try_from(*v).is_ok() {
+                    "int"
+                } else {
+                    "bigint"
+                }
+            }
+            M::U128(v) => {
+                if i64::try_from(*v).is_ok() {
+                    "int"
+                } else {
+                    "bigint"
+                }
+            }
+            M::Bytes(_) => "bytes",
+            M::Seq(_) => "seq",
+            M::Tuple(_) | M::TupleStruct(..) => "tuple",
+            M::Map(_) => "map",
+            M::Struct(..) => "struct",
+            M::UnitVariant(..) => "unit-variant",
+            M::NewtypeVariant(..) => "newtype-variant",
+            M::TupleVariant(..) => "tuple-variant",
+            M::StructVariant(..) => "struct-variant",
+            M::UnitStruct(_) => "unit-struct",
+            M::NewtypeStruct(_, v) => v.key_shape(),
+            M::None => "none",
+            M::Some(_) => "some",
+            M::Unit => "unit",
+            M::Error(_) => "error",
+        }
+    }
+
+    /// Key shapes of every map in the tree (deduplicated, in first-seen order).
+    pub fn map_key_shapes(&self) -> Vec<&'static str> {
+        let mut out: Vec<&'static str> = Vec::new();
+        self.walk(&mut |v| {
+            if let M::Map(es) = v {
+                for (k, _) in es {
+                    let s = k.key_shape();
+                    if !out.contains(&s) {
+                        out.push(s);
+                    }
+                }
+            }
+        });
+        out
+    }
+
+    /// Integer value, if this is an integer of any width.
+    pub fn as_int(&self) -> Option<Result<i128, u128>> {
+        Some(match self {
+            M::I8(v) => Ok(*v as i128),
+            M::I16(v) => Ok(*v as i128),
+            M::I32(v) => Ok(*v as i128),
+            M::I64(v) => Ok(*v as i128),
+            M::I128(v) => Ok(*v),
+            M::Isize(v) => Ok(*v as i128),
+            M::U8(v) => Ok(*v as i128),
+            M::U16(v) => Ok(*v as i128),
+            M::U32(v) => Ok(*v as i128),
+            M::U64(v) => Ok(*v as i128),
+            M::Usize(v) => Ok(*v as i128),
+            M::U128(v) => match i128::try_from(*v) {
+                Ok(i) => Ok(i),
+                Err(_) => Err(*v),
+            },
+            _ => return None,
+        })
+    }
+
+    pub fn int_text(&self) -> Option<String> {
+        self.as_int().map(|r| match r {
+            Ok(i) => i.to_string(),
+            Err(u) => u.to_string(),
+        })
+    }
+
+    /// Short description for replay cases.
+    pub fn describe(&self) -> String {
+        let s = format!("{:?}", self);
+        if s.len() > 600 {
+            let mut cut = 600;
+            while !s.is_char_boundary(cut) {
+                cut -= 1;
+            }
+            format!("{}… ({} bytes)", &s[..cut], s.len())
+        } else {
+            s
+        }
+    }
+}
+
+// ---------------------------------------------------------------------------
+// JSON image
+// ---------------------------------------------------------------------------
+
+#[derive(Clone, Copy, Debug, PartialEq, Eq)]
+pub enum Framework {
+    Serde,
+    Sval,
+}
+
+#[derive(Clone, Debug, PartialEq)]
+pub enum KeyImage {
+    Text(String),
+    F32(f32),
+    F64(f64),
+}
+
+/// What a JSON serializer must write for a value.
+#[derive(Clone, Debug, PartialEq)]
+pub enum JsonImage {
+    Null,
+    Bool(bool),
+    /// decimal digits (with sign)
+    Int(String),
+    F32(f32),
+    F64(f64),
+    Str(String),
+    Arr(Vec<JsonImage>),
+    Obj(Vec<(KeyImage, JsonImage)>),
+}
+
+impl ModelValue {
+    /// `Err(reason)` when JSON cannot express the value (`reason` = `map-key:<shape>`).
+    /// Serde and sval legitimately differ on unit structs (`null` vs the name), hence `fw`.
+    pub fn json_image(&self, fw: Framework) -> Result<JsonImage, String> {
+        use JsonImage as J;
+        let seq = |v: &Vec<ModelValue>| v.iter().map(|e| e.json_image(fw)).collect::<Result<Vec<_>, _>>().map(J::Arr);
+        let rec = |v: &Vec<(&'static str, ModelValue)>| {
+            v.iter()
+                .map(|(k, e)| e.json_image(fw).map(|e| (KeyImage::Text(k.to_string()), e)))
+                .collect::<Result<Vec<_>, _>>()
+                .map(J::Obj)
+        };
+        let variant = |name: &str, inner: JsonImage| J::Obj(vec![(KeyImage::Text(name.to_string()), inner)]);
+        Ok(match self {
+            M::Unit | M::None => J::Null,
+            M::Bool(v) => J::Bool(*v),
+            M::F32(v) => {
+                if v.is_finite() {
+                    J::F32(*v)
+                } else {
+                    J::Null
+                }
+            }
+            M::F64(v) => {
+                if v.is_finite() {
+                    J::F64(*v)
+                } else {
+                    J::Null
+                }
+            }
+            M::Char(v) => J::Str(v.to_string()),
+            M::Str(v) => J::Str(v.clone()),
+            M::Bytes(v) => J::Arr(v.iter().map(|b| J::Int(b.to_string())).collect()),
+            M::Some(v) => v.json_image(fw)?,
+            M::Seq(v) | M::Tuple(v) | M::TupleStruct(_, v) => seq(v)?,
+            M::Map(v) => {
+                let mut out = Vec::new();
+                for (k, e) in v {
+                    out.push((k.key_image()?, e.json_image(fw)?));
+                }
+                J::Obj(out)
+            }
+            M::UnitStruct(n) => match fw {
+                Framework::Serde => J::Null,
+                Framework::Sval => J::Str(n.to_string()),
+            },
+            M::NewtypeStruct(_, v) => v.json_image(fw)?,
+            M::Struct(_, v) => rec(v)?,
+            M::UnitVariant(_, _, vn) => J::Str(vn.to_string()),
+            M::NewtypeVariant(_, _, vn, v) => variant(vn, v.json_image(fw)?),
+            M::TupleVariant(_, _, vn, v) => variant(vn, seq(v)?),
+            M::StructVariant(_, _, vn, v) => variant(vn, rec(v)?),
+            M::Error(e) => J::Str(e.msg.clone()),
+            int => J::Int(int.int_text().expect("integer")),
+        })
+    }
+
+    /// The text a JSON object key must carry for this value used as a map key.
+    pub fn key_image(&self) -> Result<KeyImage, String> {
+        Ok(match self {
+            M::Str(v) => KeyImage::Text(v.clone()),
+            M::Char(v) => KeyImage::Text(v.to_string()),
+            M::Bool(v) => KeyImage::Text(v.to_string()),
+            M::F32(v) if v.is_finite() => KeyImage::F32(*v),
+            M::F64(v) if v.is_finite() => KeyImage::F64(*v),
+            M::UnitVariant(_, _, vn) => KeyImage::Text(vn.to_string()),
+            M::NewtypeStruct(_, v) => v.key_image()?,
+            other => match other.int_text() {
+                Some(t) => KeyImage::Text(t),
+                None => return Err(format!("map-key:{}", other.key_shape())),
+            },
+        })
+    }
+}
+
+/// A parsed JSON text. Numbers keep their source text, objects keep order and duplicates.
+#[derive(Clone, Debug, PartialEq)]
+pub enum JsonTree {
+    Null,
+    Bool(bool),
+    Num(String),
+    Str(String),
+    Arr(Vec<JsonTree>),
+    Obj(Vec<(String, JsonTree)>),
+}
+
+impl JsonTree {
+    pub fn get(&self, key: &str) -> Option<&JsonTree> {
+        match self {
+            JsonTree::Obj(es) => es.iter().find(|(k, _)| k == key).map(|(_, v)| v),
+            _ => None,
+        }
+    }
+
+    pub fn count(&self, key: &str) -> usize {
+        match self {
+            JsonTree::Obj(es) => es.iter().filter(|(k, _)| k == key).count(),
+            _ => 0,
+        }
+    }
+
+    pub fn as_str(&self) -> Option<&str> {
+        match self {
+            JsonTree::Str(s) => Some(s),
+            _ => None,
+        }
+    }
+
+    pub fn as_arr(&self) -> Option<&[JsonTree]> {
+        match self {
+            JsonTree::Arr(a) => Some(a),
+            _ => None,
+        }
+    }
+
+    pub fn entries(&self) -> &[(String, JsonTree)] {
+        match self {
+            JsonTree::Obj(es) => es,
+            _ => &[],
+        }
+    }
+
+    /// Integer value of a number token or of a decimal string (OTLP JSON writes int64 as string).
+    pub fn as_i128(&self) -> Option<i128> {
+        match self {
+            JsonTree::Num(s) | JsonTree::Str(s) => s.parse().ok(),
+            _ => None,
+        }
+    }
+
+    pub fn short(&self) -> String {
+        let s = format!("{:?}", self);
+        if s.len() > 300 {
+            let mut cut = 300;
+            while !s.is_char_boundary(cut) {
+                cut -= 1;
+            }
+            format!("{}…", &s[..cut])
+        } else {
+            s
+        }
+    }
+}
+
+struct Parser<'a> {
+    b: &'a [u8],
+    i: usize,
+    depth: usize,
+}
+
+/// Strict RFC 8259 parser (one value, optional surrounding whitespace).
+pub fn parse_json(text: &str) -> Result<JsonTree, String> {
+    let mut p = Parser { b: text.as_bytes(), i: 0, depth: 0 };
+    p.ws();
+    let v = p.value()?;
+    p.ws();
+    if p.i != p.b.len() {
+        return Err(format!("trailing characters at byte {}", p.i));
+    }
+    Ok(v)
+}
+
+impl<'a> Parser<'a> {
+    fn ws(&mut self) {
+        while self.i < self.b.len() && matches!(self.b[self.i], b' ' | b'\t' | b'\n' | b'\r') {
+            self.i += 1;
+        }
+    }
+
+    fn err<T>(&self, what: &str) -> Result<T, String> {
+        Err(format!("{} at byte {}", what, self.i))
+    }
+
+    fn lit(&mut self, word: &str, v: JsonTree) -> Result<JsonTree, String> {
+        if self.b[self.i..].starts_with(word.as_bytes()) {
+            self.i += word.len();
+            Ok(v)
+        } else {
+            self.err("invalid literal")
+        }
+    }
+
+    fn value(&mut self) -> Result<JsonTree, String> {
+        if self.depth > 512 {
+            return self.err("nesting too deep");
+        }
+        match self.b.get(self.i) {
+            None => self.err("unexpected end"),
+            Some(b'n') => self.lit("null", JsonTree::Null),
+            Some(b't') => self.lit("true", JsonTree::Bool(true)),
+            Some(b'f') => self.lit("false", JsonTree::Bool(false)),
+            Some(b'"') => self.string().map(JsonTree::Str),
+            Some(b'[') => {
+                self.i += 1;
+                self.depth += 1;
+                let mut out = Vec::new();
+                self.ws();
+                if self.b.get(self.i) == Some(&b']') {
+                    self.i += 1;
+                } else {
+                    loop {
+                        self.ws();
+                        out.push(self.value()?);
+                        self.ws();
+                        match self.b.get(self.i) {
+                            Some(b',') => self.i += 1,
+                            Some(b']') => {
+                                self.i += 1;
+                                break;
+                            }
+                            _ => return self.err("expected ',' or ']'"),
+                        }
+                    }
+                }
+                self.depth -= 1;
+                Ok(JsonTree::Arr(out))
+            }
+            Some(b'{') => {
+                self.i += 1;
+                self.depth += 1;
+                let mut out = Vec::new();
+                self.ws();
+                if self.b.get(self.i) == Some(&b'}') {
+                    self.i += 1;
+                } else {
+                    loop {
+                        self.ws();
+                        if self.b.get(self.i) != Some(&b'"') {
+                            return self.err("expected a string key");
+                        }
+                        let k = self.string()?;
+                        self.ws();
+                        if self.b.get(self.i) != Some(&b':') {
+                            return self.err("expected ':'");
+                        }
+                        self.i += 1;
+                        self.ws();
+                        let v = self.value()?;
+                        out.push((k, v));
+                        self.ws();
+                        match self.b.get(self.i) {
+                            Some(b',') => self.i += 1,
+                            Some(b'}') => {
+                                self.i += 1;
+                                break;
+                            }
+                            _ => return self.err("expected ',' or '}'"),
+                        }
+                    }
+                }
+                self.depth -= 1;
+                Ok(JsonTree::Obj(out))
+            }
+            Some(c) if *c == b'-' || c.is_ascii_digit() => self.number(),
+            Some(_) => self.err("unexpected character"),
+        }
+    }
+
+    fn number(&mut self) -> Result<JsonTree, String> {
+        let start = self.i;
+        if self.b.get(self.i) == Some(&b'-') {
+            self.i += 1;
+        }
+        match self.b.get(self.i) {
+            Some(b'0') => self.i += 1,
+            Some(c) if c.is_ascii_digit() => {
+                while self.b.get(self.i).map_or(false, |c| c.is_ascii_digit()) {
+                    self.i += 1;
+                }
+            }
+            _ => return self.err("invalid number"),
+        }
+        if self.b.get(self.i) == Some(&b'.') {
+            self.i += 1;
+            if !self.b.get(self.i).map_or(false, |c| c.is_ascii_digit()) {
+                return self.err("invalid fraction");
+            }
+            while self.b.get(self.i).map_or(false, |c| c.is_ascii_digit()) {
+                self.i += 1;
+            }
+        }
+        if matches!(self.b.get(self.i), Some(b'e') | Some(b'E')) {
+            self.i += 1;
+            if matches!(self.b.get(self.i), Some(b'+') | Some(b'-')) {
+                self.i += 1;
+            }
+            if !self.b.get(self.i).map_or(false, |c| c.is_ascii_digit()) {
+                return self.err("invalid exponent");
+            }
+            while self.b.get(self.i).map_or(false, |c| c.is_ascii_digit()) {
+                self.i += 1;
+            }
+        }
+        Ok(JsonTree::Num(String::from_utf8_lossy(&self.b[start..self.i]).into_owned()))
+    }
+
+    fn hex4(&mut self) -> Result<u32, String> {
+        if self.i + 4 > self.b.len() {
+            return self.err("short \\u escape");
+        }
+        let s = std::str::from_utf8(&self.b[self.i..self.i + 4]).map_err(|_| "bad \\u escape".to_string())?;
+        if !s.bytes().all(|c| c.is_ascii_hexdigit()) {
+            return self.err("bad \\u escape");
+        }
+        self.i += 4;
+        Ok(u32::from_str_radix(s, 16).unwrap())
+    }
+
+    fn string(&mut self) -> Result<String, String> {
+        self.i += 1; // opening quote
+        let mut out: Vec<u8> = Vec::new();
+        loop {
+            let c = match self.b.get(self.i) {
+                None => return self.err("unterminated string"),
+                Some(c) => *c,
+            };
+            self.i += 1;
+            match c {
+                b'"' => break,
+                b'\\' => {
+                    let e = match self.b.get(self.i) {
+                        None => return self.err("unterminated escape"),
+                        Some(e) => *e,
+                    };
+                    self.i += 1;
+                    let ch = match e {
+                        b'"' => '"',
+                        b'\\' => '\\',
+                        b'/' => '/',
+                        b'b' => '\u{8}',
+                        b'f' => '\u{c}',
+                        b'n' => '\n',
+                        b'r' => '\r',
+                        b't' => '\t',
+                        b'u' => {
+                            let hi = self.hex4()?;
+                            if (0xD800..0xDC00).contains(&hi) {
+                                if self.b.get(self.i) == Some(&b'\\') && self.b.get(self.i + 1) == Some(&b'u') {
+                                    self.i += 2;
+                                    let lo = self.hex4()?;
+                                    if !(0xDC00..0xE000).contains(&lo) {
+                                        return self.err("unpaired surrogate");
+                                    }
+                                    char::from_u32(0x10000 + ((hi - 0xD800) << 10) + (lo - 0xDC00)).unwrap()
+                                } else {
+                                    return self.err("unpaired surrogate");
+                                }
+                            } else if (0xDC00..0xE000).contains(&hi) {
+                                return self.err("unpaired surrogate");
+                            } else {
+                                char::from_u32(hi).unwrap()
+                            }
+                        }
+                        _ => return self.err("invalid escape"),
+                    };
+                    let mut buf = [0u8; 4];
+                    out.extend_from_slice(ch.encode_utf8(&mut buf).as_bytes());
+                }
+                c if c < 0x20 => return self.err("raw control character in string"),
+                c => out.push(c),
+            }
+        }
+        String::from_utf8(out).map_err(|_| format!("invalid UTF-8 in string before byte {}", self.i))
+    }
+}
+
+fn num_is_int_text(tok: &str, want: &str) -> bool {
+    // JSON integers: no leading '+', no leading zeros; allow "-0" == "0"
+    tok == want || (want == "0" && tok == "-0")
+}
+
+impl KeyImage {
+    pub fn matches(&self, key: &str) -> bool {
+        match self {
+            KeyImage::Text(t) => t == key,
+            KeyImage::F32(v) => key.parse::<f32>().map_or(false, |p| p.to_bits() == v.to_bits()) || key.parse::<f64>().map_or(false, |p| p.to_bits() == (*v as f64).to_bits()),
+            KeyImage::F64(v) => key.parse::<f64>().map_or(false, |p| p.to_bits() == v.to_bits()),
+        }
+    }
+}
+
+impl JsonImage {
+    /// `Err(path: why)` when `tree` does not denote this image.
+    pub fn matches(&self, tree: &JsonTree) -> Result<(), String> {
+        self.matches_at(tree, "$")
+    }
+
+    fn matches_at(&self, tree: &JsonTree, path: &str) -> Result<(), String> {
+        use JsonImage as J;
+        use JsonTree as T;
+        let bad = |why: String| Err(format!("{}: {}", path, why));
+        match (self, tree) {
+            (J::Null, T::Null) => Ok(()),
+            (J::Bool(a), T::Bool(b)) if a == b => Ok(()),
+            (J::Int(a), T::Num(b)) => {
+                if num_is_int_text(b, a) {
+                    Ok(())
+                } else {
+                    bad(format!("integer {} written as {}", a, b))
+                }
+            }
+            (J::F32(a), T::Num(b)) => {
+                let ok = b.parse::<f32>().map_or(false, |p| p.to_bits() == a.to_bits() || (p == 0.0 && *a == 0.0 && !b.starts_with('-') == a.is_sign_positive()))
+                    || b.parse::<f64>().map_or(false, |p| p.to_bits() == (*a as f64).to_bits());
+                if ok {
+                    Ok(())
+                } else {
+                    bad(format!("f32 {:?} written as {}", a, b))
+                }
+            }
+            (J::F64(a), T::Num(b)) => {
+                if b.parse::<f64>().map_or(false, |p| p.to_bits() == a.to_bits()) {
+                    Ok(())
+                } else {
+                    bad(format!("f64 {:?} written as {}", a, b))
+                }
+            }
+            (J::Str(a), T::Str(b)) => {
+                if a == b {
+                    Ok(())
+                } else {
+                    bad(format!("string {:?} written as {:?}", a, b))
+                }
+            }
+            (J::Arr(a), T::Arr(b)) => {
+                if a.len() != b.len() {
+                    return bad(format!("array of {} written with {} elements", a.len(), b.len()));
+                }
+                for (i, (x, y)) in a.iter().zip(b).enumerate() {
+                    x.matches_at(y, &format!("{}[{}]", path, i))?;
+                }
+                Ok(())
+            }
+            (J::Obj(a), T::Obj(b)) => {
+                if a.len() != b.len() {
+                    return bad(format!("object of {} entries written with {}", a.len(), b.len()));
+                }
+                for (i, ((ka, va), (kb, vb))) in a.iter().zip(b).enumerate() {
+                    if !ka.matches(kb) {
+                        return bad(format!("entry {} key {:?} written as {:?}", i, ka, kb));
+                    }
+                    va.matches_at(vb, &format!("{}.{}", path, kb))?;
+                }
+                Ok(())
+            }
+            (want, got) => bad(format!("expected {} got {}", want.kind(), got.short())),
+        }
+    }
+
+    fn kind(&self) -> String {
+        let s = format!("{:?}", self);
+        s.chars().take(120).collect()
+    }
+}
+
+// ---------------------------------------------------------------------------
+// OTLP AnyValue image
+// ---------------------------------------------------------------------------
+
+#[derive(Clone, Debug, PartialEq)]
+pub enum AnyImage {
+    /// no value set (protobuf) / `null` or absent (JSON)
+    Empty,
+    Str(String),
+    Bool(bool),
+    Int(i64),
+    Double(f64),
+    Bytes(Vec<u8>),
+    Array(Vec<AnyImage>),
+    KvList(Vec<(String, AnyImage)>),
+}
+
+impl ModelValue {
+    /// The OTLP `AnyValue` a property with this value must be exported as (calibration in
+    /// DESIGN.md C13): integers within i64 → int, larger → decimal text, floats → double,
+    /// sequences / tuples → array, structs / maps → kvlist, enum variants keep the payload and
+    /// lose the variant name (unit variant → its name), `None` → empty.
+    /// `Err("map-key:<shape>")` when a map key has no textual form.
+    pub fn any_image(&self) -> Result<AnyImage, String> {
+        use AnyImage as A;
+        let seq = |v: &Vec<ModelValue>| v.iter().map(|e| e.any_image()).collect::<Result<Vec<_>, _>>().map(A::Array);
+        let rec = |v: &Vec<(&'static str, ModelValue)>| {
+            v.iter().map(|(k, e)| e.any_image().map(|e| (k.to_string(), e))).collect::<Result<Vec<_>, _>>().map(A::KvList)
+        };
+        Ok(match self {
+            M::Unit | M::None => A::Empty,
+            M::Bool(v) => A::Bool(*v),
+            M::F32(v) => A::Double(*v as f64),
+            M::F64(v) => A::Double(*v),
+            M::Char(v) => A::Str(v.to_string()),
+            M::Str(v) => A::Str(v.clone()),
+            M::Bytes(v) => A::Bytes(v.clone()),
+            M::Some(v) | M::NewtypeStruct(_, v) | M::NewtypeVariant(_, _, _, v) => v.any_image()?,
+            M::Seq(v) | M::Tuple(v) | M::TupleStruct(_, v) | M::TupleVariant(_, _, _, v) => seq(v)?,
+            M::Map(v) => {
+                let mut out = Vec::new();
+                for (k, e) in v {
+                    out.push((k.any_key()?, e.any_image()?));
+                }
+                A::KvList(out)
+            }
+            M::UnitStruct(n) => A::Str(n.to_string()),
+            M::Struct(_, v) | M::StructVariant(_, _, _, v) => rec(v)?,
+            M::UnitVariant(_, _, vn) => A::Str(vn.to_string()),
+            M::Error(e) => A::Str(e.msg.clone()),
+            int => match int.as_int().expect("integer") {
+                Ok(i) => match i64::try_from(i) {
+                    Ok(i) => A::Int(i),
+                    Err(_) => A::Str(i.to_string()),
+                },
+                Err(u) => A::Str(u.to_string()),
+            },
+        })
+    }
+
+    /// Text of a kvlist key; `Err("map-key:<shape>")` for keys OTLP cannot carry as text.
+    pub fn any_key(&self) -> Result<String, String> {
+        match self {
+            M::Str(v) => Ok(v.clone()),
+            M::Char(v) => Ok(v.to_string()),
+            M::UnitVariant(_, _, vn) => Ok(vn.to_string()),
+            M::NewtypeStruct(_, v) => v.any_key(),
+            other if other.key_shape() == "bigint" => Ok(other.int_text().unwrap()),
+            other => Err(format!("map-key:{}", other.key_shape())),
+        }
+    }
+}
+
+// ---------------------------------------------------------------------------
+// generators
+// ---------------------------------------------------------------------------
+
+macro_rules! gen_int {
+    ($name:ident, $t:ty) => {
+        pub fn $name(g: &mut Rng) -> $t {
+            let bits = <$t>::BITS as u64;
+            match g.below(10) {
+                0 => <$t>::MIN,
+                1 => <$t>::MAX,
+                2 => 0,
+                3 => 1,
+                4 => <$t>::MAX - 1,
+                5 => <$t>::MIN + 1,
+                6 => {
+                    // around a power of two
+                    let p = (1 as $t).wrapping_shl(g.below(bits) as u32);
+                    match g.below(3) {
+                        0 => p.wrapping_sub(1),
+                        1 => p,
+                        _ => p.wrapping_add(1),
+                    }
+                }
+                7 => {
+                    // around a power of ten (formatting width changes)
+                    let mut p: $t = 1;
+                    for _ in 0..g.below(40) {
+                        p = match p.checked_mul(10) {
+                            Some(n) => n,
+                            None => break,
+                        };
+                    }
+                    if g.bool() {
+                        p.wrapping_sub(1)
+                    } else {
+                        p
+                    }
+                }
+                _ => {
+                    let v = ((g.next() as u128) << 64 | g.next() as u128) as $t;
+                    // small magnitudes are as interesting as huge ones
+                    if g.bool() {
+                        v.wrapping_shr(g.below(bits) as u32)
+                    } else {
+                        v
+                    }
+                }
+            }
+        }
+    };
+}
+
+gen_int!(gen_i8, i8);
+gen_int!(gen_i16, i16);
+gen_int!(gen_i32, i32);
+gen_int!(gen_i64, i64);
+gen_int!(gen_i128, i128);
+gen_int!(gen_isize, isize);
+gen_int!(gen_u8, u8);
+gen_int!(gen_u16, u16);
+gen_int!(gen_u32, u32);
+gen_int!(gen_u64, u64);
+gen_int!(gen_u128, u128);
+gen_int!(gen_usize, usize);
+
+/// 128-bit values around the 64-bit boundaries matter to sinks (OTLP has no 128-bit integers).
+pub fn gen_i128_boundary(g: &mut Rng) -> i128 {
+    match g.below(8) {
+        0 => i64::MAX as i128,
+        1 => i64::MAX as i128 + 1,
+        2 => i64::MIN as i128,
+        3 => i64::MIN as i128 - 1,
+        4 => u64::MAX as i128,
+        5 => u64::MAX as i128 + 1,
+        _ => gen_i128(g),
+    }
+}
+
+pub fn gen_u128_boundary(g: &mut Rng) -> u128 {
+    match g.below(8) {
+        0 => i64::MAX as u128,
+        1 => i64::MAX as u128 + 1,
+        2 => u64::MAX as u128,
+        3 => u64::MAX as u128 + 1,
+        4 => i128::MAX as u128,
+        5 => i128::MAX as u128 + 1,
+        _ => gen_u128(g),
+    }
+}
+
+pub fn gen_f64(g: &mut Rng) -> f64 {
+    const EDGE: &[f64] = &[
+        0.0,
+        -0.0,
+        1.0,
+        -1.0,
+        0.1,
+        0.5,
+        1.5,
+        f64::NAN,
+        f64::INFINITY,
+        f64::NEG_INFINITY,
+        f64::MIN,
+        f64::MAX,
+        f64::MIN_POSITIVE,
+        f64::EPSILON,
+        5e-324,
+        1e15,
+        1e16,
+        1e17,
+        9007199254740992.0,
+        9007199254740993.0,
+        1e21,
+        1e-5,
+        1e-7,
+        123456789.125,
+        3.141592653589793,
+        -2.2250738585072014e-308,
+        4294967296.0,
+        2147483648.0,
+        -2147483649.0,
+    ];
+    match g.below(4) {
+        0 | 1 => *g.pick(EDGE),
+        2 => f64::from_bits(g.next()),
+        _ => (g.irange(-1_000_000, 1_000_000) as f64) / [1.0, 10.0, 100.0, 1000.0, 3.0][g.usize(5)],
+    }
+}
+
+pub fn gen_f32(g: &mut Rng) -> f32 {
+    const EDGE: &[f32] = &[
+        0.0,
+        -0.0,
+        1.0,
+        -1.0,
+        0.1,
+        0.5,
+        f32::NAN,
+        f32::INFINITY,
+        f32::NEG_INFINITY,
+        f32::MIN,
+        f32::MAX,
+        f32::MIN_POSITIVE,
+        f32::EPSILON,
+        1e-45,
+        16777216.0,
+        16777217.0,
+        1e7,
+        1e-5,
+        3.1415927,
+    ];
+    match g.below(4) {
+        0 | 1 => *g.pick(EDGE),
+        2 => f32::from_bits(g.next() as u32),
+        _ => (g.irange(-100_000, 100_000) as f32) / [1.0, 10.0, 100.0, 3.0][g.usize(4)],
+    }
+}
+
+pub fn gen_char(g: &mut Rng) -> char {
+    const EDGE: &[char] = &[
+        '\0', 'a', 'Z', '0', ' ', '"', '\'', '\\', '/', '\n', '\r', '\t', '\u{8}', '\u{c}', '\u{1b}', '\u{7f}', '\u{80}', '\u{a0}', 'é', 'ß', '日',
+        '\u{d7ff}', '\u{e000}', '\u{fffd}', '\u{ffff}', '\u{10000}', '😀', '\u{10ffff}', '\u{2028}', '\u{2029}', '\u{feff}', '{', '}',
+    ];
+    match g.below(3) {
+        0 | 1 => *g.pick(EDGE),
+        _ => loop {
+            if let Some(c) = char::from_u32(g.below(0x11_0000) as u32) {
+                break c;
+            }
+        },
+    }
+}
+
+pub fn gen_string(g: &mut Rng) -> String {
+    const FIXED: &[&str] = &[
+        "",
+        " ",
+        "text",
+        "Hello, World",
+        "null",
+        "true",
+        "NaN",
+        "-0",
+        "42",
+        "1e400",
+        "0x10",
+        "info",
+        "ERROR",
+        "span",
+        "metric",
+        "2024-01-01T00:00:00.000Z",
+        "4bf92f3577b34da6a3ce929d0e0e4736",
+        "00f067aa0ba902b7",
+        "{\"a\":1}",
+        "[1,2",
+        "a\"b",
+        "back\\slash",
+        "line1\nline2\r\n\ttabbed",
+        "nul\0inside",
+        "\u{1b}[31mred\u{1b}[0m",
+        "\u{7f}\u{80}\u{9f}",
+        "héllo wörld",
+        "日本語のテキスト",
+        "emoji 😀 pair 👩‍👩‍👧",
+        "\u{2028}sep\u{2029}",
+        "\u{feff}bom",
+        "{not a hole}",
+        "}{",
+        "tab\there",
+        "quote'single",
+        "</script>",
+        "\u{10ffff}",
+    ];
+    match g.below(5) {
+        0 | 1 => (*g.pick(FIXED)).to_string(),
+        2 => {
+            let n = g.usize(24);
+            (0..n).map(|_| gen_char(g)).collect()
+        }
+        3 => {
+            let n = g.usize(40);
+            (0..n).map(|_| (g.below(95) as u8 + 32) as char).collect()
+        }
+        _ => {
+            // occasionally long
+            let n = if g.chance(1, 12) { 200 + g.usize(2000) } else { g.usize(80) };
+            let mut s = String::new();
+            while s.len() < n {
+                match g.below(8) {
+                    0 => s.push(gen_char(g)),
+                    1 => s.push_str(*g.pick(FIXED)),
+                    _ => s.push((g.below(26) as u8 + b'a') as char),
+                }
+            }
+            s
+        }
+    }
+}
+
+pub fn gen_bytes(g: &mut Rng) -> Vec<u8> {
+    match g.below(4) {
+        0 => Vec::new(),
+        1 => vec![0, 255, 128, 127, 10, 34, 92],
+        2 => b"plain ascii bytes".to_vec(),
+        _ => (0..g.usize(48)).map(|_| g.next() as u8).collect(),
+    }
+}
+
+/// The primitive classes, in a fixed order (index usable as a case coordinate).
+pub const PRIM_CLASSES: &[&str] = &[
+    "bool", "i8", "i16", "i32", "i64", "i128", "isize", "u8", "u16", "u32", "u64", "u128", "usize", "f32", "f64", "char", "str",
+];
+
+pub fn gen_prim_of(g: &mut Rng, class: &str) -> ModelValue {
+    match class {
+        "bool" => M::Bool(g.bool()),
+        "i8" => M::I8(gen_i8(g)),
+        "i16" => M::I16(gen_i16(g)),
+        "i32" => M::I32(gen_i32(g)),
+        "i64" => M::I64(gen_i64(g)),
+        "i128" => M::I128(gen_i128_boundary(g)),
+        "isize" => M::Isize(gen_isize(g)),
+        "u8" => M::U8(gen_u8(g)),
+        "u16" => M::U16(gen_u16(g)),
+        "u32" => M::U32(gen_u32(g)),
+        "u64" => M::U64(gen_u64(g)),
+        "u128" => M::U128(gen_u128_boundary(g)),
+        "usize" => M::Usize(gen_usize(g)),
+        "f32" => M::F32(gen_f32(g)),
+        "f64" => M::F64(gen_f64(g)),
+        "char" => M::Char(gen_char(g)),
+        "str" => M::Str(gen_string(g)),
+        other => panic!("unknown primitive class {}", other),
+    }
+}
+
+pub fn gen_prim(g: &mut Rng) -> ModelValue {
+    let c = *g.pick(PRIM_CLASSES);
+    gen_prim_of(g, c)
+}
+
+/// Which kinds of map keys the generator may produce.
+#[derive(Clone, Copy, Debug, PartialEq, Eq)]
+pub enum KeyKind {
+    Str,
+    Char,
+    Int,
+    BigInt,
+    Bool,
+    Float,
+    UnitVariant,
+    NewtypeInt,
+    Bytes,
+    Seq,
+    Tuple,
+    Map,
+    Struct,
+    NewtypeVariant,
+}
+
+pub const TEXT_KEYS: &[KeyKind] = &[KeyKind::Str, KeyKind::Char, KeyKind::UnitVariant];
+pub const SCALAR_KEYS: &[KeyKind] = &[KeyKind::Int, KeyKind::BigInt, KeyKind::Bool, KeyKind::Float, KeyKind::NewtypeInt];
+pub const COMPOUND_KEYS: &[KeyKind] = &[KeyKind::Bytes, KeyKind::Seq, KeyKind::Tuple, KeyKind::Map, KeyKind::Struct, KeyKind::NewtypeVariant];
+
+#[derive(Clone, Debug)]
+pub struct GenCfg {
+    /// remaining nesting depth (0 = primitives only)
+    pub depth: u32,
+    /// max elements per collection
+    pub max_len: usize,
+    /// key kinds maps may use (empty = no maps)
+    pub keys: Vec<KeyKind>,
+    pub unit_structs: bool,
+    pub bytes: bool,
+}
+
+impl GenCfg {
+    pub fn new(depth: u32, max_len: usize) -> GenCfg {
+        GenCfg { depth, max_len, keys: TEXT_KEYS.to_vec(), unit_structs: true, bytes: true }
+    }
+
+    pub fn with_keys(mut self, kinds: &[KeyKind]) -> GenCfg {
+        self.keys = kinds.to_vec();
+        self
+    }
+
+    fn deeper(&self) -> GenCfg {
+        let mut c = self.clone();
+        c.depth = c.depth.saturating_sub(1);
+        c
+    }
+}
+
+fn gen_fields(g: &mut Rng, cfg: &GenCfg) -> Vec<(&'static str, ModelValue)> {
+    let n = g.usize(cfg.max_len.min(FIELD_NAMES.len()) + 1);
+    let mut names: Vec<&'static str> = FIELD_NAMES.to_vec();
+    g.shuffle(&mut names);
+    names.into_iter().take(n).map(|k| (k, gen_value(g, &cfg.deeper()))).collect()
+}
+
+fn gen_vec(g: &mut Rng, cfg: &GenCfg, min: usize) -> Vec<ModelValue> {
+    let n = min + g.usize(cfg.max_len.saturating_sub(min) + 1);
+    (0..n).map(|_| gen_value(g, &cfg.deeper())).collect()
+}
+
+pub fn gen_key(g: &mut Rng, kind: KeyKind, i: usize) -> ModelValue {
+    // `i` keeps keys of one map distinct in their textual form
+    match kind {
+        KeyKind::Str => M::Str(format!("{}{}", ["k", "key ", "ключ", "a.b", "", "\"q\"", "x\ny"][g.usize(7)], i)),
+        KeyKind::Char => M::Char(['a', 'é', '日', '"', '\n', '😀', 'z', '0'][i % 8]),
+        KeyKind::Int => match g.below(4) {
+            0 => M::U8(i as u8),
+            1 => M::I64(-(i as i64) - 1),
+            2 => M::I32(i as i32 * 1000 + 7),
+            _ => M::U64(i64::MAX as u64 - i as u64),
+        },
+        KeyKind::BigInt => match g.below(3) {
+            0 => M::U64(u64::MAX - i as u64),
+            1 => M::U128(u128::MAX - i as u128),
+            _ => M::I128(i128::MIN + i as i128),
+        },
+        KeyKind::Bool => M::Bool(i % 2 == 0),
+        KeyKind::Float => M::F64([0.5, -1.25, 1e300, 3.0, 1e-7, -0.0][i % 6] + (i / 6) as f64),
+        KeyKind::UnitVariant => M::UnitVariant("Kind", (i % 4) as u32, VARIANT_NAMES[i % 4]),
+        KeyKind::NewtypeInt => M::NewtypeStruct("Wrapper", Box::new(M::U32(i as u32))),
+        KeyKind::Bytes => M::Bytes(vec![i as u8, 1, 2]),
+        KeyKind::Seq => M::Seq(vec![M::U8(i as u8), M::U8(2)]),
+        KeyKind::Tuple => M::Tuple(vec![M::U8(i as u8), M::Str("t".into())]),
+        KeyKind::Map => M::Map(vec![(M::Str("k".into()), M::U8(i as u8))]),
+        KeyKind::Struct => M::Struct("Point", vec![("a", M::U8(i as u8)), ("b", M::Bool(true))]),
+        KeyKind::NewtypeVariant => M::NewtypeVariant("Shape", 1, "Second", Box::new(M::U8(i as u8))),
+    }
+}
+
+/// A seeded tree, bounded by `cfg.depth` / `cfg.max_len`.
+pub fn gen_value(g: &mut Rng, cfg: &GenCfg) -> ModelValue {
+    if cfg.depth == 0 || g.chance(2, 5) {
+        return match g.below(12) {
+            0 => M::Unit,
+            1 => M::None,
+            2 if cfg.bytes => M::Bytes(gen_bytes(g)),
+            3 => M::UnitVariant(*g.pick(ENUM_NAMES), 0, VARIANT_NAMES[0]),
+            _ => gen_prim(g),
+        };
+    }
+    let name = *g.pick(TYPE_NAMES);
+    let en = *g.pick(ENUM_NAMES);
+    let vi = g.usize(VARIANT_NAMES.len());
+    let vn = VARIANT_NAMES[vi];
+    match g.below(14) {
+        0 => M::Some(Box::new(gen_value(g, &cfg.deeper()))),
+        1 | 2 => M::Seq(gen_vec(g, cfg, 0)),
+        3 => {
+            let mut c = cfg.clone();
+            c.max_len = c.max_len.clamp(1, 6);
+            M::Tuple(gen_vec(g, &c, 1))
+        }
+        4 | 5 if !cfg.keys.is_empty() => {
+            let kind = *g.pick(&cfg.keys);
+            let cap = match kind {
+                KeyKind::Bool => 2,
+                KeyKind::Char => 8,
+                _ => cfg.max_len,
+            };
+            let n = g.usize(cap.min(cfg.max_len) + 1);
+            M::Map((0..n).map(|i| (gen_key(g, kind, i), gen_value(g, &cfg.deeper()))).collect())
+        }
+        6 if cfg.unit_structs => M::UnitStruct(name),
+        7 => M::NewtypeStruct(name, Box::new(gen_value(g, &cfg.deeper()))),
+        8 => M::TupleStruct(name, gen_vec(g, cfg, 2)),
+        9 => M::Struct(name, gen_fields(g, cfg)),
+        10 => M::UnitVariant(en, vi as u32, vn),
+        11 => M::NewtypeVariant(en, vi as u32, vn, Box::new(gen_value(g, &cfg.deeper()))),
+        12 => M::TupleVariant(en, vi as u32, vn, gen_vec(g, cfg, 2)),
+        13 => M::StructVariant(en, vi as u32, vn, gen_fields(g, cfg)),
+        _ => M::Struct(name, gen_fields(g, cfg)),
+    }
+}
+
+/// A structured value (never a bare primitive at the top).
+pub fn gen_structured(g: &mut Rng, cfg: &GenCfg) -> ModelValue {
+    for _ in 0..64 {
+        let v = gen_value(g, cfg);
+        if !v.is_primitive() && !matches!(v, M::Unit | M::None) {
+            return v;
+        }
+    }
+    M::Seq(vec![gen_prim(g)])
+}
+
+pub fn gen_error(g: &mut Rng) -> ModelError {
+    let n = 1 + g.usize(4);
+    let msgs: Vec<String> = (0..n)
+        .map(|i| match g.below(4) {
+            0 => format!("level {} failed", i),
+            1 => gen_string(g),
+            2 => format!("io error: {} (os error {})", ["not found", "denied", "reset"][g.usize(3)], g.below(200)),
+            _ => format!("ошибка {} \"quoted\"\nsecond line", i),
+        })
+        .collect();
+    ModelError::chain(&msgs)
+}
+
+#[cfg(test)]
+mod tests {
+    use super::*;
+
+    #[test]
+    fn parser_agrees_with_serde_json_on_generated_values() {
+        for i in 0..2000u64 {
+            let mut g = Rng::stream(7, &[i]);
+            let v = gen_value(&mut g, &GenCfg::new(3, 4).with_keys(&[KeyKind::Str, KeyKind::Int, KeyKind::Float, KeyKind::Bool]));
+            let text = serde_json::to_string(&v).unwrap();
+            let tree = parse_json(&text).unwrap();
+            v.json_image(Framework::Serde).unwrap().matches(&tree).unwrap_or_else(|e| panic!("{} for {:?} -> {}", e, v, text));
+        }
+    }
+}
